@@ -323,3 +323,230 @@ Proof.
     try (apply rpc1_ops_ok; [reflexivity | reflexivity | (left; split; reflexivity) || (right; split; reflexivity)]; fail).
   - (* Add *) eapply add_ops_ok; eassumption.
 Qed.
+
+(* Prop-level reading *)
+Record ops_ok (h : rhandler) (e : renv) (exp : list (string * list string)) (r : rres) : Prop := {
+  oo_performed : performed (rs_calls r) exp;
+  oo_success : errb r = false -> rs_calls r = ok_calls exp;
+  oo_error : errb r = true -> any_failed (rs_calls r) = true \/ (imp_failed h e = true /\ rs_calls r = []);
+  oo_failed : any_failed (rs_calls r) = true -> errb r = true;
+  oo_4xx : is4xx (rs_status r) = true -> any_failed (rs_calls r) = true;
+  oo_serr : rs_serr r = true -> is_stream h e = true /\ rs_status r = 200%N;
+  oo_docs : rs_ndocs r = Some 1%N \/ (rs_ndocs r = Some 0%N /\ rs_status r = 204%N)
+            \/ (rs_ndocs r = None /\ is_stream h e = true /\ rs_status r = 200%N)
+}.
+
+Lemma ops_okb_sound h e exp r : ops_okb h e exp r = true -> ops_ok h e exp r.
+Proof.
+  unfold ops_okb. intros H.
+  apply andb_prop in H as [H H7]. apply andb_prop in H as [H H6]. apply andb_prop in H as [H H5].
+  apply andb_prop in H as [H H4]. apply andb_prop in H as [H H3]. apply andb_prop in H as [H1 H2].
+  constructor.
+  - apply prefix_ops_performed. exact H1.
+  - intros E. rewrite E in H2. apply rcalls_eqb_eq. exact H2.
+  - intros E. rewrite E in H2. apply orb_prop in H2 as [H2|H2]; [left; exact H2|].
+    apply andb_prop in H2 as [Ha Hb]. right. split; [exact Ha | apply is_nil_true; exact Hb].
+  - intros E. rewrite E in H3. exact H3.
+  - intros E. rewrite E in H5. exact H5.
+  - intros E. rewrite E in H4. apply andb_prop in H4 as [Ha Hb]. apply N.eqb_eq in Hb. split; assumption.
+  - destruct (rs_ndocs r) as [[|p]|].
+    + right; left. split; [reflexivity | apply N.eqb_eq; exact H6].
+    + destruct p; try discriminate. left; reflexivity.
+    + right; right. apply andb_prop in H6 as [Ha Hb]. apply N.eqb_eq in Hb. repeat split; assumption.
+Qed.
+
+Lemma handle_ops h vars q e exp : spec_expect h vars q e = Ops exp -> ops_ok h e exp (handle h vars q e).
+Proof. intros H. apply ops_okb_sound. apply handle_ops_b with (vars := vars) (q := q). exact H. Qed.
+
+(* every call a handler issues carries one of the RPC names its class denotes (hand-written) *)
+Definition handler_rpc_names (h : rhandler) : list string :=
+  match h with
+  | RId => ["Cluster.ID"] | RVersion => ["Cluster.Version"] | RPeers => ["Cluster.Peers"] | RPeerAdd => ["Cluster.PeerAdd"]
+  | RPeerRemove => ["Cluster.PeerRemove"] | RAdd => ["Cluster.BlockAllocate"; "IPFSConnector.BlockPut"; "Cluster.Pin"]
+  | RAllocations => ["Cluster.Pins"] | RAllocation => ["Cluster.PinGet"]
+  | RStatusAll => ["Cluster.StatusAllLocal"; "Cluster.StatusAll"] | RRecover => ["Cluster.RecoverLocal"; "Cluster.Recover"]
+  | RRecoverAll => ["Cluster.RecoverAllLocal"; "Cluster.RecoverAll"] | RStatus => ["Cluster.StatusLocal"; "Cluster.Status"]
+  | RPin => ["Cluster.Pin"] | RPinPath => ["Cluster.PinPath"] | RUnpin => ["Cluster.Unpin"] | RUnpinPath => ["Cluster.UnpinPath"]
+  | RRepoGC => ["Cluster.RepoGCLocal"; "Cluster.RepoGC"] | RGraph => ["Cluster.ConnectGraph"] | RAlerts => ["Cluster.Alerts"]
+  | RMetrics => ["PeerMonitor.LatestMetrics"] | RMetricNames => ["PeerMonitor.MetricNames"] | RUnknown => []
+  end.
+
+Lemma performed_names obs : forall exp c, performed obs exp -> In c obs -> In (fst (fst c)) (map fst exp).
+Proof.
+  induction obs as [|x obs IH]; intros exp c H Hin; [contradiction|].
+  inversion H; subst.
+  - destruct Hin as [<-|[]]. left; reflexivity.
+  - destruct Hin as [<-|Hin]; [left; reflexivity|]. right. eapply IH; eassumption.
+Qed.
+
+Lemma spec_expect_names h vars q e exp : spec_expect h vars q e = Ops exp -> incl (map fst exp) (handler_rpc_names h).
+Proof.
+  destruct h; cbn [spec_expect handler_rpc_names]; intros H; break_match_hyp H; try discriminate; inversion H; subst; clear H;
+    cbn [map fst]; intros x Hx; cbn [In] in *; tauto.
+Qed.
+
+Lemma handle_call_names h vars q e c : h <> RUnknown -> In c (rs_calls (handle h vars q e)) -> In (fst (fst c)) (handler_rpc_names h).
+Proof.
+  intros Hh Hin. destruct (spec_expect h vars q e) as [|exp] eqn:E.
+  - rewrite (handle_refuse h vars q e Hh E) in Hin. contradiction.
+  - apply (spec_expect_names _ _ _ _ _ E). eapply performed_names; [|exact Hin]. apply (oo_performed _ _ _ _ (handle_ops _ _ _ _ _ E)).
+Qed.
+
+(* generated call sites (by route name) = the names the handler class may issue *)
+Definition route_model_okb (r : string * string * string * string) : bool :=
+  let '(name, _, _, hn) := r in
+  match sget name named_ops with
+  | Some sites => strs_eqb (flat_map model_names sites) (handler_rpc_names (rhandler_of_name hn))
+                  && negb (is_nil (handler_rpc_names (rhandler_of_name hn)))
+  | None => false
+  end.
+
+Lemma route_model_all : forallb route_model_okb rest_routes = true.
+Proof. vm_compute. reflexivity. Qed.
+
+Lemma route_ops_model name m pat hn : In (name, m, pat, hn) rest_routes ->
+  exists sites, sget name named_ops = Some sites /\ func_rpcs hn = Some sites /\
+    forall vars q e c, In c (rs_calls (handle (rhandler_of_name hn) vars q e)) -> In (fst (fst c)) (flat_map model_names sites).
+Proof.
+  intros Hin.
+  pose proof (route_ops_each _ Hin) as H1. pose proof (proj1 (forallb_forall _ _) route_model_all _ Hin) as H2.
+  unfold route_ops_okb in H1. unfold route_model_okb in H2.
+  destruct (sget name named_ops) as [sites|]; [|discriminate].
+  destruct (func_rpcs hn) as [got|]; [|discriminate].
+  apply strs_eqb_eq in H1. subst got. apply andb_prop in H2 as [H2 H3]. apply strs_eqb_eq in H2.
+  exists sites. repeat split. intros vars q e c Hc. rewrite H2. apply handle_call_names with (vars := vars) (q := q) (e := e); [|exact Hc].
+  intros Hu. rewrite Hu in H3. discriminate.
+Qed.
+
+(* ------------------------------------------------------------------------------------------ *)
+(* whole requests: fail-closed and faithful                                                   *)
+(* ------------------------------------------------------------------------------------------ *)
+Lemma routed_known rq e h vars : routed rq e h vars -> h <> RUnknown.
+Proof. intros (_ & _ & _ & H). apply resolve_spec_known in H. tauto. Qed.
+
+Lemma fail_closed_l rq e h vars : routed rq e h vars -> malformed h vars e -> rest_run rq e = bad400.
+Proof.
+  intros Hr Hm. rewrite (rest_run_routed _ _ _ _ Hr). apply handle_refuse; [eapply routed_known; exact Hr|].
+  apply refuse_iff_malformed. exact Hm.
+Qed.
+
+Lemma wellformed_translated_l rq e h vars : routed rq e h vars -> ~ malformed h vars e ->
+  exists exp, spec_expect h vars (rr_query rq) e = Ops exp /\ ops_ok h e exp (rest_run rq e).
+Proof.
+  intros Hr Hm. rewrite (rest_run_routed _ _ _ _ Hr).
+  destruct (spec_expect h vars (rr_query rq) e) as [|exp] eqn:E.
+  - exfalso. apply Hm. apply (refuse_iff_malformed h vars (rr_query rq) e). exact E.
+  - exists exp. split; [reflexivity | apply handle_ops; exact E].
+Qed.
+
+Lemma calls_exact_l rq e : rs_calls (rest_run rq e) <> [] ->
+  exists h vars exp, routed rq e h vars /\ ~ malformed h vars e /\ spec_expect h vars (rr_query rq) e = Ops exp
+    /\ ops_ok h e exp (rest_run rq e).
+Proof.
+  intros Hc. destruct (rest_run_calls_routed rq e Hc) as (h & vars & Hr).
+  assert (Hm : ~ malformed h vars e).
+  { intros Hm. rewrite (fail_closed_l _ _ _ _ Hr Hm) in Hc. apply Hc. reflexivity. }
+  destruct (wellformed_translated_l _ _ _ _ Hr Hm) as (exp & He & Ho).
+  exists h, vars, exp. split; [exact Hr|]. split; [exact Hm|]. split; assumption.
+Qed.
+
+(* a 4xx answer and a call together: only when that call was refused by the cluster itself *)
+Lemma refused_no_call_l rq e : is4xx (rs_status (rest_run rq e)) = true -> any_failed (rs_calls (rest_run rq e)) = false ->
+  rs_calls (rest_run rq e) = [].
+Proof.
+  intros H4 Hf. destruct (rs_calls (rest_run rq e)) as [|c l] eqn:Ec; [reflexivity|]. exfalso.
+  assert (Hn : rs_calls (rest_run rq e) <> []) by (rewrite Ec; discriminate).
+  destruct (calls_exact_l rq e Hn) as (h & vars & exp & _ & _ & _ & Ho).
+  pose proof (oo_4xx _ _ _ _ Ho H4) as Hx. rewrite Ec in Hx. rewrite Hx in Hf. discriminate.
+Qed.
+
+(* ------------------------------------------------------------------------------------------ *)
+(* single JSON document                                                                       *)
+(* ------------------------------------------------------------------------------------------ *)
+Definition docs_spec (rq : rreq) (e : renv) (r : rres) : Prop :=
+  match rs_ndocs r with
+  | Some n => n = 1%N \/ (n = 0%N /\ (rr_meth rq = "HEAD" \/ rs_status r = 204%N \/ rs_status r = 405%N))
+  | None => (rs_status r = 301%N /\ rs_calls r = []) \/
+            (rs_status r = 200%N /\ exists vars o, routed rq e RAdd vars /\ re_addp e = Some (o, true))
+  end.
+
+Lemma is_stream_inv h e : is_stream h e = true -> h = RAdd /\ exists o, re_addp e = Some (o, true).
+Proof. unfold is_stream. destruct h; try discriminate. destruct (re_addp e) as [[o [|]]|]; try discriminate. intros _. split; [reflexivity | exists o; reflexivity]. Qed.
+
+Lemma single_document_l rq e : docs_spec rq e (rest_run rq e).
+Proof.
+  unfold docs_spec.
+  destruct (authorized e) eqn:Ha.
+  2:{ rewrite rest_run_unfold. unfold rest_run_with. rewrite Ha. cbn [negb]. unfold strip_head.
+      destruct (String.eqb (rr_meth rq) "HEAD") eqn:Eh; cbn; [right; split; [reflexivity | left; apply String.eqb_eq; exact Eh] | left; reflexivity]. }
+  destruct (rr_preflight rq) eqn:Hp.
+  { rewrite rest_run_unfold. unfold rest_run_with. rewrite Ha, Hp. cbn [negb]. unfold strip_head.
+    destruct (String.eqb (rr_meth rq) "HEAD"); cbn; right; (split; [reflexivity|]); right; left; reflexivity. }
+  destruct (re_redirect e) eqn:Hd.
+  { rewrite rest_run_unfold. unfold rest_run_with. rewrite Ha, Hp, Hd. cbn [negb]. unfold strip_head.
+    destruct (String.eqb (rr_meth rq) "HEAD"); cbn; left; split; reflexivity. }
+  destruct (resolve true route_spec (rr_meth rq) (segments (rr_path rq)) false) as [h vars| | |] eqn:Hm.
+  - (* routed *)
+    assert (Hr : routed rq e h vars) by (repeat split; assumption).
+    rewrite (rest_run_routed _ _ _ _ Hr).
+    destruct (spec_expect h vars (rr_query rq) e) as [|exp] eqn:E.
+    + rewrite (handle_refuse _ _ _ _ (routed_known _ _ _ _ Hr) E). cbn. left; reflexivity.
+    + pose proof (handle_ops _ _ _ _ _ E) as Ho. destruct (oo_docs _ _ _ _ Ho) as [H|[[H1 H2]|(H1 & H2 & H3)]].
+      * rewrite H. left; reflexivity.
+      * rewrite H1. right. split; [reflexivity | right; left; exact H2].
+      * rewrite H1. right. split; [exact H3|]. apply is_stream_inv in H2 as [-> [o Ho']]. exists vars, o. split; assumption.
+  - rewrite rest_run_unfold. unfold rest_run_with. rewrite Ha, Hp, Hd, Hm. cbn [negb]. unfold strip_head.
+    destruct (String.eqb (rr_meth rq) "HEAD"); cbn; left; split; reflexivity.
+  - rewrite rest_run_unfold. unfold rest_run_with. rewrite Ha, Hp, Hd, Hm. cbn [negb]. unfold strip_head.
+    destruct (String.eqb (rr_meth rq) "HEAD"); cbn; right; (split; [reflexivity|]); right; right; reflexivity.
+  - rewrite rest_run_unfold. unfold rest_run_with. rewrite Ha, Hp, Hd, Hm. cbn [negb]. unfold strip_head.
+    destruct (String.eqb (rr_meth rq) "HEAD") eqn:Eh; cbn; [right; split; [reflexivity | left; apply String.eqb_eq; exact Eh] | left; reflexivity].
+Qed.
+
+(* ------------------------------------------------------------------------------------------ *)
+(* authentication                                                                             *)
+(* ------------------------------------------------------------------------------------------ *)
+Definition listed_pair (e : renv) : Prop :=
+  match re_creds e with
+  | None => True
+  | Some l => exists u p, re_basic e = Some (u, p) /\ In (u, p) l
+  end.
+
+Lemma authorized_spec e : authorized e = true <-> listed_pair e.
+Proof.
+  unfold authorized, listed_pair. destruct (re_creds e) as [l|]; [|tauto].
+  destruct (re_basic e) as [[u p]|].
+  - rewrite existsb_exists. split.
+    + intros ([u' p'] & Hin & Heq). cbn in Heq. apply andb_prop in Heq as [E1 E2].
+      apply String.eqb_eq in E1. apply String.eqb_eq in E2. subst. exists u, p. split; [reflexivity | exact Hin].
+    + intros (u' & p' & Heq & Hin). inversion Heq; subst. exists (u', p'). split; [exact Hin|]. cbn. rewrite !String.eqb_refl. reflexivity.
+  - split; [discriminate | intros (u & p & H & _); discriminate].
+Qed.
+
+(* credentials configured, request without a listed pair: 401, nothing called, whatever the method, path, pre-flight
+   header, redirect outcome *)
+Lemma auth_total_l rq e : ~ listed_pair e ->
+  rs_calls (rest_run rq e) = [] /\ rs_status (rest_run rq e) = 401%N /\ rs_serr (rest_run rq e) = false
+  /\ (rs_ndocs (rest_run rq e) = Some 1%N \/ (rr_meth rq = "HEAD" /\ rs_ndocs (rest_run rq e) = Some 0%N)).
+Proof.
+  intros H. assert (Ha : authorized e = false).
+  { destruct (authorized e) eqn:E; [|reflexivity]. exfalso. apply H. apply authorized_spec. exact E. }
+  rewrite rest_run_unfold. unfold rest_run_with. rewrite Ha. cbn [negb]. unfold strip_head.
+  destruct (String.eqb (rr_meth rq) "HEAD") eqn:Eh; cbn; repeat split; try reflexivity.
+  - right. split; [apply String.eqb_eq; exact Eh | reflexivity].
+  - left. reflexivity.
+Qed.
+
+(* the wrapper is transparent for a request that carries a listed pair *)
+Definition open_env (e : renv) : renv :=
+  mk_renv None (re_basic e) (re_redirect e) (re_cids e) (re_peers e) (re_paths e) (re_popts e) (re_addp e) (re_tfilter e)
+          (re_pfilter_ok e) (re_body e) (re_mp e) (re_imp_ok e) (re_root e) (re_fails e).
+
+Lemma handle_open h vars q e : handle h vars q (open_env e) = handle h vars q e.
+Proof. destruct h; reflexivity. Qed.
+
+Lemma auth_transparent_l rq e : listed_pair e -> rest_run rq e = rest_run rq (open_env e).
+Proof.
+  intros H. apply authorized_spec in H. unfold rest_run, rest_run_with. rewrite H. cbn [negb authorized open_env re_creds re_redirect].
+  destruct (resolve rest_strict_slash (compile_rest rest_routes) (rr_meth rq) (segments (rr_path rq)) false); try reflexivity; rewrite handle_open; reflexivity.
+Qed.
